@@ -4,10 +4,14 @@
    skip_until, zip_with_iterable, sequence_equal with an observable second argument).
 
    A scenario is: the operator, its arity n, its parameter, one timeline per lane (elements
-   then at most one terminal, each stamped with an integer instant 1..MaxT, non-decreasing
-   inside a lane) and the instant at which the subscriber disposes (or NEVER).  Instants are
-   abstract: only their order and their coincidences matter (no operator here owns a timer);
-   the replayer maps instant k to a virtual time by a strictly increasing map.
+   then at most one terminal, each stamped with an integer instant MinT..MaxT, non-decreasing
+   inside a lane) and how the subscriber disposes: never, at an instant `dsp`, or from inside
+   its own dk-th on_next.  Instants are abstract: only their order and their coincidences
+   matter (no operator here owns a timer); the replayer maps instant k to a virtual time by a
+   strictly increasing map.  Instant 0 is the subscription instant (all sources are subscribed
+   then); MinT = 0 lets (cold) sources notify at that very instant.
+   The bounds are per *family* (`Families`): one TLC run can cover several differently bounded
+   families, chosen together with the scenario in `Init`.
 
    TIE POLICY (DESIGN 3.2).  Order inside a lane is fixed; order between lanes (and the
    dispose lane) at one instant is NOT: `Fire(i)` is enabled for every lane whose head is due
@@ -48,7 +52,7 @@ CONSTANTS Preset,     \* "" : one scenario family, given by the constants below;
           NVals,      \* value tokens of the comparing operator
           Disposes,   \* TRUE: the subscriber's dispose instant ranges over 1..MaxT as well as NEVER
           DisposeIn,  \* k > 0: the subscriber may also dispose from inside its own j-th on_next, j = 1..k
-          Faults,     \* TRUE: sequence_equal's comparer may raise
+          Faults,     \* TRUE: sequence_equal's comparer may also raise (code 4) or be non-symmetric (code 5)
           Mode,       \* "init": scenario chosen in Init, canonical instants (exhaustive runs)
                       \* "gen" : timelines built notification by notification (for -simulate on
                       \*          constants whose scenario space no longer finishes)
@@ -61,7 +65,6 @@ Vals  == 0..(NVals - 1)
 
 NARY     == {"zip", "combine_latest", "with_latest_from", "fork_join", "amb"}
 BINARY   == {"take_until", "skip_until", "sequence_equal"}
-UNARY    == {"zip_with_iterable"}
 GROWTH3  == {"take_until", "skip_until", "zip_with_iterable"}
 ALLTERMS == {"C", "E", "U"}
 
@@ -75,17 +78,22 @@ Families ==
          {Fam(NARY, {1, 2}, 2, 1, 3, ALLTERMS, FALSE, 0),                 \* every pair of timelines, 3 instants
           Fam(NARY, {3}, 1, 1, 2, {"C", "U"}, FALSE, 0),                   \* every triple of short timelines
           Fam(NARY \cup GROWTH3, {2}, 1, 1, 2, ALLTERMS, TRUE, 1)}         \* growth operators; dispose at an instant / inside on_next
+    [] Preset = "seqeq_quick" ->   \* sequence_equal(observable) for the C06 check's quick tier
+         {Fam({"sequence_equal"}, {2}, 2, 1, 2, {"C"}, FALSE, 0),
+          Fam({"sequence_equal"}, {2}, 1, 1, 2, ALLTERMS, FALSE, 0)}
     [] OTHER -> {F0}
 
 ArityOf(o, f) == IF o \in NARY THEN f.nsrc ELSE IF o \in BINARY THEN {2} ELSE {1}
 
-\* comparers of sequence_equal: 0 equality, 1 same parity, 2 never equal, 3 always equal, 4 raises
-CmpCodes == IF Faults THEN 0..4 ELSE 0..3
+\* comparers of sequence_equal, comparer(a, b) with a from the source and b from the second sequence:
+\* 0 equality, 1 same parity, 2 never equal, 3 always equal, 4 raises, 5 "a <= b" (not symmetric)
+CmpCodes == IF Faults THEN 0..5 ELSE 0..3
 Cmp(code, a, b) == CASE code = 0 -> IF a = b THEN 1 ELSE 0
                      [] code = 1 -> IF a % 2 = b % 2 THEN 1 ELSE 0
                      [] code = 2 -> 0
                      [] code = 3 -> 1
-                     [] OTHER    -> 2
+                     [] code = 4 -> 2
+                     [] OTHER    -> IF a <= b THEN 1 ELSE 0
 ParamsOf(o, f) == CASE o = "zip_with_iterable" -> [m : 0..(f.maxlen + 1), cmp : {0}]
                     [] o = "sequence_equal"    -> [m : {0}, cmp : CmpCodes]
                     [] OTHER                   -> {[m |-> 0, cmp |-> 0]}
@@ -94,7 +102,6 @@ VARIABLES op, n, par, lanes, dsp, dk,                    \* the scenario (dk: di
           g, glen,                                       \* generation phase (Mode = "gen"): lanes finished so far
                                                          \* (n + 1 = the run has started), length drawn for the next
           pos, st, out, done, disposed, unsub, last, np, now, branched   \* the run
-scn  == <<op, n, par, lanes, dsp, dk>>
 vars == <<op, n, par, lanes, dsp, dk, g, glen, pos, st, out, done, disposed, unsub, last, np, now, branched>>
 
 (* ---- timelines ------------------------------------------------------------------------ *)
@@ -222,7 +229,10 @@ SeqEq(p, s, i, ev) ==
                       ELSE IF s.dn[o] THEN One(R(s2, <<NT(1), CT>>, TRUE, {}))
                       ELSE One(R(s2, <<>>, FALSE, {})))
     [] OTHER -> IF s.q[o] # <<>>
-                THEN (LET c == Cmp(p.cmp, Head(s.q[o]), ev.v)  s2 == [s EXCEPT !.q[o] = Tail(@)] IN
+                THEN (LET a  == IF i = 1 THEN ev.v ELSE Head(s.q[o])      \* the source's element
+                          b  == IF i = 1 THEN Head(s.q[o]) ELSE ev.v      \* the second sequence's element
+                          c  == Cmp(p.cmp, a, b)                          \* always comparer(source, second)
+                          s2 == [s EXCEPT !.q[o] = Tail(@)] IN
                       CASE c = 2 -> One(R(s2, <<ET(0)>>, TRUE, {}))
                         [] c = 0 -> One(R(s2, <<NT(0), CT>>, TRUE, {}))
                         [] OTHER -> One(R(s2, <<>>, FALSE, {})))
@@ -364,7 +374,6 @@ NoEarlyClose == \A i \in 1..n : (unsub[i] # NEVER /\ ~done) =>
 (* ---- the property's wording, as functions of the cut ------------------------------------ *)
 \* The cut: lane i has delivered its first pos[i]-1 notifications; `last` is the lane whose
 \* notification was processed last (np notifications so far).
-P == np
 Seen(i)   == pos[i] - 1
 EvL       == lanes[last][pos[last] - 1]                                   \* the notification just processed
 Cnt(i)    == IF Seen(i) >= 1 /\ lanes[i][Seen(i)].k # "N" THEN Seen(i) - 1 ELSE Seen(i)   \* elements produced by lane i
@@ -432,7 +441,6 @@ Fails == ErrRef >= 0
 \* what was emitted in reaction to the notification just processed (entries stamped fp = np)
 IsInc(x) == x.fp = np
 Inc      == SelectSeq(out, IsInc)
-IncN     == SelectSeq(Inc, LAMBDA x : x.k = "N")
 EndsC    == out # <<>> /\ out[Len(out)].k = "C"
 EndsE    == out # <<>> /\ out[Len(out)].k = "E"
 RefOK ==
